@@ -170,6 +170,10 @@ class BaseBatch(abc.ABC):
             if response_map and self._client.strict:
                 raise exceptions.IdentityError(f"unexpected response found: {response_map.keys()}")
 
+            # results read by position or as a tuple follow the order the calls were made in
+            order = {request.id: idx for idx, request in enumerate(batch_request) if request.id is not None}
+            batch_response._responses.sort(key=lambda response: order.get(response.id, len(order)))
+
 
 class Batch(BaseBatch):
     """
